@@ -1575,6 +1575,24 @@ fn run(v: &Value) -> Result<String, String> {
                     cases += 1;
                 }
             }
+            // ---- mount prefixes are normalised: with or without the leading slash, with or without a trailing one ----
+            for (spelling, canonical) in [("api", "/api"), ("/api", "/api"), ("api/", "/api"), ("/api/", "/api"), ("v2/api", "/v2/api"), ("/v2/api/", "/v2/api"), ("a", "/a")] {
+                let reg = Arc::new(Registry::new());
+                reg.register_value("/slot", json!(41)).unwrap();
+                let seen = Arc::new(Mutex::new(Vec::new()));
+                for kind in ["registry", "struct"] {
+                    // (a trailing slash is normalised away for registry mounts only)
+                    if kind == "struct" && spelling.ends_with('/') { continue; }
+                    let r = if kind == "registry" { Router::new().with_registry(spelling, reg.clone()) } else { Router::new().with_struct_shared(spelling, Arc::new(Mutex::new(Rec { seen: seen.clone() }))) };
+                    let path = format!("{canonical}/slot");
+                    let Some(h) = r.get(&path) else { return Err(format!("a {kind} mounted with the prefix spelled {spelling:?} does not receive {path:?}")) };
+                    let resp = h.handle(&Message::builder().id(4).query_str(&path).build()).map_err(|e| e.to_string())?;
+                    if resp.header.ec != 0 { return Err(format!("a {kind} mounted with the prefix spelled {spelling:?} answered {path:?} with ec {}", resp.header.ec)); }
+                    if kind == "registry" && resp.json_body::<Value>().ok() != Some(json!(41)) { return Err(format!("a registry mounted as {spelling:?} answered {path:?} with {:?}", String::from_utf8_lossy(&resp.body))); }
+                    if r.get(&format!("{canonical}x/slot")).is_some() { return Err(format!("a {kind} mounted as {spelling:?} also claims {canonical}x/slot")); }
+                    cases += 1;
+                }
+            }
             // ---- owned vs borrowed vs middleware-wrapped, built-in handler kinds x body formats x bodies ----
             #[derive(serde::Serialize, serde::Deserialize)]
             struct P { a: i64 }
@@ -2564,6 +2582,33 @@ fn run(v: &Value) -> Result<String, String> {
             reg.insert(peer(1));
             if reg.get_by("session-1").is_some() || !reg.aliases_for(repe::PeerId(1)).is_empty() { return Err("after re-registering the id, a stale key resolves to a peer it was never assigned to".into()); }
             if reg.aliases_for(repe::PeerId(2)) != vec!["other".to_string()] || reg.get_by("other").map(|p| p.peer_id().0) != Some(2) { return Err("an unrelated peer's alias was disturbed".into()); }
+            // a lookup is one atomic step: while a key is re-pointed from a peer to a fresh one and the old owner removed, the key always
+            // addresses a present peer, so get_by must never answer None (schedule sample: 1 writer, 3 readers, 1.5 s)
+            {
+                use std::sync::atomic::{AtomicBool, AtomicU64, Ordering};
+                let reg = repe::PeerRegistry::new();
+                reg.insert(peer(1));
+                reg.alias(repe::PeerId(1), "k");
+                let stop = Arc::new(AtomicBool::new(false));
+                let misses = Arc::new(AtomicU64::new(0));
+                let lookups = Arc::new(AtomicU64::new(0));
+                let readers: Vec<_> = (0..3).map(|_| { let (r, st, mi, lo) = (reg.clone(), stop.clone(), misses.clone(), lookups.clone()); std::thread::spawn(move || {
+                    while !st.load(Ordering::Relaxed) { if r.get_by("k").is_none() { mi.fetch_add(1, Ordering::Relaxed); } lo.fetch_add(1, Ordering::Relaxed); }
+                }) }).collect();
+                let t0 = std::time::Instant::now();
+                let mut cur = 1u64;
+                while t0.elapsed() < Duration::from_millis(1500) {
+                    let next = cur + 1;
+                    reg.insert(peer(next));
+                    reg.alias(repe::PeerId(next), "k");
+                    reg.remove(repe::PeerId(cur));
+                    cur = next;
+                }
+                stop.store(true, Ordering::Relaxed);
+                for r in readers { let _ = r.join(); }
+                let (mi, lo) = (misses.load(Ordering::Relaxed), lookups.load(Ordering::Relaxed));
+                if mi > 0 { return Err(format!("get_by(k) answered None {mi} times in {lo} lookups while k was re-pointed {} times from a present peer to a present peer: a lookup is not one atomic step", cur - 1)); }
+            }
             Ok(format!("alias/remove race resolved as a sequential order (alias returned {attached})"))
         }
         "ws_lifecycle_sweep" => {
